@@ -32,13 +32,14 @@ def gen(ctx):
     for _ in range(70 if ctx.quick else 700):
         nt = r.choice(NUMTYPES); bo = r.choice(['little', 'big'])
         sh = r.choice([(0,), (3,), (2, 2), (0, 2), (2, 1, 3)])
-        letters = [r.choice(['a1', 'aod', 'it2', 't-1', 't0', 't1', 'ms', 'mc', 'ms', 'mc', 'ro', 'abad', 'set', 'mr', 'mrw'])
+        letters = [r.choice(['a1', 'aod', 'it2', 'itbad', 't-1', 't0', 't1', 'ms', 'mc', 'ms', 'mpi', 'mpi', 'ro', 'abad', 'set', 'mr', 'mrw'])
                    for _ in range(r.randint(2, 7 if ctx.quick else 20))]
         A.append(history_case(r, nt, bo, sh, letters, metadata=r.choice([None, {'a': 1}, None])))
     for _ in range(45 if ctx.quick else 450):
         nt = r.choice(NUMTYPES); bo = r.choice(['little', 'big'])
-        start = r.choice([None, [1], [2, 0, 1, 3], [1, 2, 3, 4, 5], [1, 1, 1, 1, 1, 1], [3, 2, 1, 0, 1, 2, 3]])
-        letters = [r.choice(['a1', 'a3', 'a0', 'it2', 't-1', 't1', 'aod', 'abad', 'itbad', 'ro', 'ms', 'mc'])
+        start = r.choice([None, [1], [2, 0, 1, 3], [1, 2, 3, 4, 5], [1, 1, 1, 1, 1, 1], [3, 2, 1, 0, 1, 2, 3],
+                          [2, 1, 0, 0], [1, 0], [1, 2, 3, 0, 0, 0, 0]])
+        letters = [r.choice(['a1', 'a3', 'a0', 'it2', 't-1', 't-1', 't1', 't2', 'aod', 'abad', 'itbad', 'ro', 'ms', 'mc', 'mpi'])
                    for _ in range(r.randint(2, 6 if ctx.quick else 16))]
         G.append(rhistory_case(r, nt, bo, r.choice(p04.ATOMS), r.choice(INDEXTYPES), start, letters))
     return A, G
